@@ -445,7 +445,10 @@ def monitored(func, args, path):
     import dis
     mon = sys.monitoring
     tool = mon.COVERAGE_ID
-    lines, branches = set(), set()
+    class _Lines(set):
+        """executed lines; .entered holds the (name, first line) of every code object of the module that was entered"""
+    lines, branches = _Lines(), set()
+    lines.entered = set()
     instr_cache = {}
 
     def instrs(code):
@@ -456,6 +459,7 @@ def monitored(func, args, path):
     def on_line(code, line):
         if code.co_filename == path:
             lines.add(line)
+            lines.entered.add((code.co_name, code.co_firstlineno))
         else:
             return mon.DISABLE
         return None
